@@ -444,7 +444,7 @@ def verified_logout(ctx):
         alla = (i % 3 != 2)
         over = {c: {("frontchannel_logout_uri" if (i + j) % 2 else "backchannel_logout_uri"): "https://%s.example.com/logout" % c}
                 for j, c in enumerate(sess.CLIENTS)}
-        rs = sess.RealSession(oidc=True, client_over=over, rules=["explicit", "implied", "per-client", "handler"][i % 4])
+        rs = sess.RealSession(oidc=True, client_over=over, rules=["explicit", "implied", "per-client", "handler", "partial"][i % 5])
         try:
             rs.server.context.httpc = lambda *a, **kw: type("R", (), {"status_code": 200, "text": ""})()
             u = rng.choice(sess.USERS)
